@@ -1618,4 +1618,81 @@ Proof.
     + discriminate.
 Qed.
 
+Lemma okplist_shape nm v : forall l, okplist nm v l = true -> forallb (shape_ok nm) l = true.
+Proof.
+  induction l as [|[name t] r IH]; intros h; [reflexivity|]. cbn [okplist] in h.
+  apply andb_prop in h. destruct h as [h hr]. apply andb_prop in h. destruct h as [h _]. apply andb_prop in h. destruct h as [hs _].
+  cbn [forallb]. rewrite (IH hr), andb_true_r. exact hs.
+Qed.
+
+Lemma okplist_last_typed nm v : forall l, l <> [] -> okplist nm v l = true ->
+  match snd (last l (None, None)) with Some _ => True | None => False end.
+Proof.
+  induction l as [|[name t] r IH]; intros hne h; [contradiction|]. cbn [okplist] in h.
+  apply andb_prop in h. destruct h as [h hr]. apply andb_prop in h. destruct h as [h _]. apply andb_prop in h. destruct h as [_ ht].
+  destruct r as [|q r'].
+  - cbn [last snd]. destruct t; [exact I|discriminate].
+  - replace (last ((name, t) :: q :: r') (@None bytes, @None ex)) with (last (q :: r') (@None bytes, @None ex)) by reflexivity.
+    apply IH; [discriminate|exact hr].
+Qed.
+
+Lemma okplist_second nm : forall l, okplist nm true l = true ->
+  forall front q2 q, l = front ++ [q2; q] -> match snd q2 with Some _ => True | None => False end.
+Proof.
+  induction l as [|[name t] r IH]; intros h front q2 q hl; [destruct front; discriminate|].
+  cbn [okplist] in h. apply andb_prop in h. destruct h as [h hr]. apply andb_prop in h. destruct h as [_ hsnd].
+  destruct front as [|f0 front'].
+  - cbn [app] in hl. injection hl as h1 h2. subst q2 r. cbn [snd]. destruct t; [exact I|discriminate].
+  - cbn [app] in hl. injection hl as _ ->. apply (IH hr front' q2 q eq_refl).
+Qed.
+
+Lemma params_full v l ls isr rest m :
+  Forall (fun q : param => Qo A_stmt (snd q)) l -> seq_opt (params_pieces v (map ppq l)) = Some ls ->
+  l <> [] -> okplist (named_of l) v l = true -> (v = true -> isr = false) ->
+  (needpl l <= m)%nat ->
+  pplist m isr (toks (sep_by comma_sp ls) ++ KRP :: rest) [] None = ROk (Some (map normq l), v, rest).
+Proof.
+  intros hA hls hne hok hv hm.
+  rewrite (params_run (named_of l) v l hA ls hls hne hok isr [] rest m hm). cbn [app length Nat.add].
+  apply finish_run; try assumption.
+  - apply (okplist_shape _ v). exact hok.
+  - apply (okplist_last_typed (named_of l) v l hne hok).
+  - intros; exact I.
+  - intros ->. split; [apply hv; reflexivity|]. apply (okplist_second (named_of l) l hok).
+Qed.
+
+(* the parameter list does not start with a right parenthesis *)
+Lemma params_first nm v l ls : l <> [] -> okplist nm v l = true ->
+  seq_opt (params_pieces v (map ppq l)) = Some ls ->
+  forall rest, match toks (sep_by comma_sp ls) ++ rest with KRP :: _ => False | _ => True end.
+Proof.
+  intros hne hok hls rest. destruct l as [|[name t] r]; [contradiction|].
+  cbn [okplist] in hok. apply andb_prop in hok. destruct hok as [hok _]. apply andb_prop in hok. destruct hok as [hok _].
+  apply andb_prop in hok. destruct hok as [_ hty].
+  assert (hfirst : forall pt t', pp t' = Some pt -> forall nxt, ok true false t' nxt = true -> forall rest',
+            match toks pt ++ rest' with KRP :: _ => False | _ => True end).
+  { intros pt t' hpt nxt hokt rest'. destruct (first_tok_cons t' pt hpt) as [t0 [r0 [h1 _]]]. rewrite h1. cbn [app].
+    pose proof (type_first t' false nxt pt t0 r0 hokt hpt h1) as h. destruct t0; try discriminate; exact I. }
+  destruct r as [|q2 r'].
+  - cbn [map] in hls. cbn [params_pieces] in hls. unfold ppq in hls. cbn [fst snd] in hls.
+    destruct t as [t|]; [|discriminate]. cbn [omap] in hls.
+    destruct v, name as [a|]; destruct (pp t) as [pt|] eqn:ept; cbn [param_pieces seq_opt] in hls; try discriminate;
+      injection hls as <-; cbn [sep_by]; norm_toks; try exact I.
+    apply (hfirst pt t ept _ hty).
+  - change (map ppq ((name, t) :: q2 :: r')) with (ppq (name, t) :: map ppq (q2 :: r')) in hls.
+    change (params_pieces v (ppq (name, t) :: map ppq (q2 :: r')))
+      with (param_pieces (ppq (name, t)) :: params_pieces v (map ppq (q2 :: r'))) in hls.
+    cbn [seq_opt] in hls. unfold ppq at 1 in hls. cbn [fst snd] in hls.
+    destruct (param_pieces (name, omap pp t)) as [pq|] eqn:epq; [|discriminate].
+    destruct (seq_opt _) as [ls'|]; [|discriminate]. injection hls as <-.
+    rewrite sep_by_cons.
+    assert (hq : forall rest', match toks pq ++ rest' with KRP :: _ => False | _ => True end).
+    { intros rest'. destruct name as [a|], t as [t|]; cbn [omap param_pieces] in epq.
+      - destruct (pp t); [|discriminate]. injection epq as <-. exact I.
+      - injection epq as <-. exact I.
+      - destruct (pp t) as [pt|] eqn:ept; [|discriminate]. injection epq as <-. apply (hfirst pt t ept _ hty).
+      - discriminate. }
+    destruct ls'; [apply hq|]. rewrite !toks_app, <- !app_assoc. apply hq.
+Qed.
+
 End Main.
